@@ -75,6 +75,23 @@ def is_node_visible(
     return True
 
 
+def nearest_visible(
+    node_id: str,
+    flat_graph: nx.DiGraph,
+    expansion_state: dict[str, bool],
+) -> str:
+    """Visible representative of a node: the node itself, or the collapsed container that hides it.
+
+    Returns ``node_id`` unchanged when no ancestor is visible either (e.g. hidden nodes).
+    """
+    current: str | None = node_id
+    while current is not None:
+        if is_node_visible(current, flat_graph, expansion_state):
+            return current
+        current = flat_graph.nodes[current].get("parent")
+    return node_id
+
+
 def get_nesting_depth(node_id: str, flat_graph: nx.DiGraph) -> int:
     """Get the nesting depth of a node (0 = root level)."""
     depth = 0
